@@ -386,6 +386,29 @@ def prog_npindex(w, rng):
             return
 
 
+def prog_large(w, rng):
+    """C09 (thorough tier): a reference-free object LARGER THAN 64 KiB copied into a buffer of another context (and of the same one) at
+    an offset that differs from the source's, then written on either side - whatever block size a transfer is staged in"""
+    w.big_ok, w.capacity_p = True, 0
+    w.ns.max_items = 20000
+    n = rng.choice([8200, 8300, 9000])
+    F64 = X.sc("Float64")
+    tx = X.arr(F64, [-1]) if rng.random() < 0.6 else X.struct(X.sc("Int32"), X.arr(F64, [-1]), X.sc("Int8"))
+    if w.new(X.arr(X.sc("Int16"), [rng.choice([3, 5, 9])]), 0, dims_p=0) is None:      # the source does not start at offset 0
+        return
+    k = w.new(tx, 0, mindim=n, maxdim=1, placement="default", dims_p=0)
+    if k is None:
+        return
+    for db in [2]:
+        w.wedge(db)
+        nk = w.copy(k, db, whole=True)
+        if nk is None:
+            return
+        for side in (nk, k):
+            if w.set(side, allow=("null",), no_from=True) is False and w.steps[-1].get("exc"):
+                return
+
+
 def prog_err(w, rng):
     """C11: objects with live neighbours, then operations that cannot be honoured (each must raise and change no value)"""
     w.capacity_p = 0.4          # strings whose capacity was given explicitly (not a multiple of 8) are where "fits" is subtle
@@ -680,7 +703,10 @@ def make_history(pid, seed, index):
         w.ns.native_arrays = "first"
     stopped = ""
     try:
-        PROGRAMS[pid](w, rng)
+        if pid == "C09" and index >= COUNTS["quick"] and index % 1250 == 3:
+            prog_large(w, rng)          # (indices beyond the quick tier's: 6 histories of the thorough tier)
+        else:
+            PROGRAMS[pid](w, rng)
     except C.MachineryError:
         raise
     except Exception as ex:      # noqa: the harness bookkeeping lost track (expected only after the library misbehaved): the steps
